@@ -39,7 +39,7 @@ def run(ctx):
             raise ToolError(f"vacuity: switching {g} off no longer violates anything")
     # 3. the production functions under the controller: all schedules within a preemption bound
     out = ctx.path("cursor.ndjson")
-    args = {"groups": ["CURSOR"], "policy": "dfs", "preemption_bound": 2 if ctx.quick() else 3,
+    args = {"groups": ["CURSOR", "ATOMIC"], "policy": "dfs", "preemption_bound": 2 if ctx.quick() else 3,
             "max_runs": 600 if ctx.quick() else 20000, "out": out, "scripts": scripts, "seed": ctx.seed}
     r = ctx.vh("cursor", args, timeout=3000)
     jobs = []
